@@ -87,8 +87,17 @@ def gen_history_case(rng, what):
     return case
 
 
+FIXED_CACHE_CASES = [
+    # two heads on one Input tensor, each explained through output_layer=-1 (and plainly), in both orders
+    dict(stream="cache", ops=[["new", 0], ["newout", 1, 0], ["explainer", 0, 0, -1], ["explainer", 1, 1, -1]]),
+    dict(stream="cache", ops=[["new", 0], ["newout", 1, 0], ["explainer", 0, 1, -1], ["explainer", 1, 0, -1], ["explainer", 2, 1]]),
+    dict(stream="cache", ops=[["new", 0], ["newout", 1, 0], ["newout", 2, 0], ["explainer", 0, 2, -1], ["discard", 2],
+                              ["explainer", 1, 1, -1], ["explainer", 2, 0, -1]]),
+]
+
+
 def generate(rng, tier):
-    cases = [gen_cache_case(rng, tier) for _ in range(40 if tier == "quick" else 400)]
+    cases = [dict(c) for c in FIXED_CACHE_CASES] + [gen_cache_case(rng, tier) for _ in range(40 if tier == "quick" else 400)]
     reps = 1 if tier == "quick" else 6
     for _ in range(reps):
         for i, w in enumerate(METHODS + METRICS + METRICS):   # metrics twice: their state (stored inputs, masks) is the likeliest to leak
